@@ -392,6 +392,12 @@ func (r *CPUSuppress) adjustByCPUSet(cpusetQuantity *resource.Quantity, nodeCPUI
 		}
 	}
 
+	if len(lsrCpus)+len(lsCpus) == 0 {
+		klog.Warningf("applyBESuppressPolicy skipped since no cpu is available for best-effort pods, " +
+			"all cpus are reserved or exclusively used by system qos or LSE pods")
+		return
+	}
+
 	// set the number of cpuset cpus no less than 2
 	cpus := int32(math.Ceil(float64(cpusetQuantity.MilliValue()) / 1000))
 	if cpus < beMinCPUSetCores {
